@@ -72,6 +72,9 @@ def judge(chk, sc, o):
         if op['op'] == 'stop_and_join':
             # deferred worker_exit runs now, once per instance that worked
             continue
+        if op['op'] in oracles.MAPS and oo.get('outcome') == 'raise' and not op.get('fail'):
+            chk.violation('call_runs_with_its_own_settings', case, {'op': opi, 'raised': oo.get('exc')},
+                          'a call whose functions do not raise succeeds (its workers received the extras of the current settings)', input_class='unexpected_failure')
         if op['op'] not in oracles.MAPS or oo.get('outcome') != 'ok':
             prev_tokens = None
             continue
